@@ -85,15 +85,14 @@ Theorem C15_crossing_log : forall s e,
   end.
 Proof. exact xlog_step. Qed.
 
-(* FULL STATEMENT (false of the code as written): every identifier of a pattern produces exactly one
-   event:  forall p, locs (emit p) = ids p.
-   Proved outside the known class (an or-pattern inside a non-first alternative of an or-pattern);
-   refuted by a witness inside it. *)
-Theorem C15_pattern_cover_outside_known : forall p, Known_C15 p = false -> locs (emit p) = ids p.
-Proof. exact pattern_cover_outside_known. Qed.
+(* every identifier of a pattern produces exactly one event, in source order (binders of the first
+   alternative are definitions, identifiers of later alternatives - nested or-patterns included - are uses) *)
+Theorem C15_pattern_cover : forall p, locs (emit p) = ids p.
+Proof. exact pattern_cover. Qed.
 
-Theorem C15_pattern_cover_refuted : exists p, Known_C15 p = true /\ locs (emit p) <> ids p.
-Proof. exact pattern_cover_refuted. Qed.
+Example C15_nonvacuous_nested_or :
+  emit nested_or_witness = [Def 1 10; Use 1 11 false; Use 1 12 false].
+Proof. vm_compute. reflexivity. Qed.
 
 (* ---- non-vacuity ----
    function f(a) = { let b = a; (c) -> a + b + c }   with names a=1 b=2 c=3, fresh name 9:
@@ -134,5 +133,4 @@ Print Assumptions C15_rename_touches_only.
 Print Assumptions C15_captures_exact.
 Print Assumptions C15_lambda_captures_exact.
 Print Assumptions C15_crossing_log.
-Print Assumptions C15_pattern_cover_outside_known.
-Print Assumptions C15_pattern_cover_refuted.
+Print Assumptions C15_pattern_cover.
